@@ -56,7 +56,7 @@ Section MsgSign.
   Definition inverse (a : Z) : outcome Z :=
     if a mod n =? 0 then Raise E_ASSERT else Ret (inv_n a).
 
-  (* Generator.sign_with_recid: the `while True` loop, k += 1 until r and s are non-zero *)
+  (* Generator.sign_with_recid: the `while True` loop, k += 1 (wrapping from n back to 1) until r and s are non-zero *)
   Fixpoint sign_loop (fuel : nat) (k d z : Z) : outcome (Z * Z * Z) :=
     match fuel with
     | O => OutOfFuel
@@ -69,7 +69,7 @@ Section MsgSign.
         let s := (ik * (z + (d * r) mod n)) mod n in
         if negb (r =? 0) && negb (s =? 0)
         then Ret (r, s, Z.land y 1 + (if n <? x then 2 else 0))
-        else sign_loop f (k + 1) d z
+        else sign_loop f (if n <=? k + 1 then 1 else k + 1) d z      (* k += 1; if k >= n: k = 1 *)
       end
     end.
 
